@@ -198,6 +198,8 @@ func doDump(c *Ctx, what string) {
 		for _, f := range c.REval.Sorted() {
 			fmt.Println("  E", shortFn(f))
 		}
+	case what == "index":
+		dumpIndexSites(c)
 	case what == "writes":
 		dumpWriteSites(c)
 	case what == "guards":
